@@ -57,7 +57,9 @@ consumers of the machine's own tables (`prodOf_tag_*`, `consOf_tag_*`) — nobod
 does cannot depend on how far another thread has got beyond the prefix it needs. -/
 theorem C02_source_queue_discipline :
     (Rex.Gen.Ownership.node_queue_ops ++ Rex.Gen.Ownership.conn_queue_ops).all opOk = true ∧
-    Rex.Gen.Ownership.node_queue_ops.length + Rex.Gen.Ownership.conn_queue_ops.length ≥ 40 := by decide
+    Rex.Gen.Ownership.node_queue_ops.length + Rex.Gen.Ownership.conn_queue_ops.length ≥ 40 ∧
+    -- the handlers of one wrapper run on one worker thread (one at a time, in submission order)
+    Rex.Gen.Ownership.node_single_worker = true ∧ Rex.Gen.Ownership.conn_single_worker = true := by decide
 
 /-- … and those tables are the machine's: whoever the machine lets append to (pop from) a queue is in the table -/
 theorem C02_machine_ownership (cfg : Cfg T) :
